@@ -2,11 +2,12 @@
 import os
 ENV = os.path.join(os.path.dirname(os.path.dirname(os.path.abspath(__file__))), "env")
 CL = "bindgen/clang.rs"
+CU = {"impl": r"^impl Cursor$", "impl_header": "impl Cursor", "impl_name": "Cursor"}
 
 UNIT = {
     "name": "eval_int",
     "env": [os.path.join(ENV, "eval_int_env.rs")],
-    "declared_trusted": {r"external_body": 5},
+    "declared_trusted": {r"external_body": 13},
     "items": [
         {"kind": "fn", "file": CL, "name": "kind", "impl": r"^impl EvalResult$", "impl_header": "impl EvalResult", "impl_name": "EvalResult", "ret": "r",
          "subst": [("unsafe {", "{", 1, "R20")],
@@ -19,6 +20,29 @@ UNIT = {
              "ffi_kind(self.x) != CXEval_Int ==> r.is_none()",
              "ffi_kind(self.x) == CXEval_Int && ffi_is_unsigned(self.x) == 0 ==> r == Some(ffi_as_longlong(self.x))",
              "ffi_kind(self.x) == CXEval_Int && ffi_is_unsigned(self.x) != 0 ==> r == Some(ffi_as_unsigned(self.x) as i64)",
+         ]},
+        # enum constants: the signed getter for signed enums, the UNSIGNED getter for unsigned ones (a 64-bit unsigned
+        # enumerator above i64::MAX read through the signed getter would come out negative)
+        {"kind": "fn", "file": CL, "name": "enum_val_signed", **CU, "ret": "r",
+         "subst": [("unsafe {", "{", 1, "R20")],
+         "ensures": ["r == (if ffi_cursor_kind(self.x) == CXCursor_EnumConstantDecl { Some(ffi_enum_value(self.x)) } else { None })"]},
+        {"kind": "fn", "file": CL, "name": "enum_val_unsigned", **CU, "ret": "r",
+         "subst": [("unsafe {", "{", 1, "R20")],
+         "ensures": ["r == (if ffi_cursor_kind(self.x) == CXCursor_EnumConstantDecl { Some(ffi_enum_value_unsigned(self.x)) } else { None })"]},
+        {"kind": "fn", "file": CL, "name": "enum_val_boolean", **CU, "ret": "r",
+         "subst": [("unsafe {", "{", 1, "R20")],
+         "ensures": ["r == (if ffi_cursor_kind(self.x) == CXCursor_EnumConstantDecl { Some(ffi_enum_value(self.x) != 0) } else { None })"]},
+        # the integer-literal arm of <Var as CodeGenerator>::codegen (block, R18): the literal denotes the value
+        # in the signedness of the variable's C type (an unsigned value carried as i64 is re-read as u64)
+        {"kind": "fn", "file": "bindgen/codegen/mod.rs", "name": "var_int_arm", "impl": r"^impl CodeGenerator for Var$", "ret": "r",
+         "closure": {"enclosing": "codegen", "anchor": "VarType::Int(val) => {", "nth": 0,
+                     "signature": "fn var_int_arm(ctx: &BindgenContext, var_ty: TypeId, val: i64) -> (r: Option<Tok>)"},
+         "subst": [("var_ty .into_resolver() .through_type_aliases() .through_type_refs() .resolve(ctx) .expect_type() .as_integer() .unwrap()", "resolved_int_kind(var_ty, ctx)", 1, "R5"),
+                   ("val as _", "val as u64", 1, "inferred cast target written out (uint_expr takes u64)")],
+         "ensures": [
+             "r.is_some()",
+             "s_int_kind_of(var_ty, ctx).signed ==> lit_value(r.unwrap()) == val as int",
+             "!s_int_kind_of(var_ty, ctx).signed ==> lit_value(r.unwrap()) == (val as u64) as int",
          ]},
     ],
 }
